@@ -1,16 +1,8 @@
 SPECIFICATION TSpec
 CONSTANTS
-  MaxSegs = 1
-  NVals = {1}
-  KVals = {1}
-  Trunc = FALSE
-  Extra = 0
-  Steps = {1}
-  MaxSliceLen = 0
   StaleIndex = FALSE
   ExactFinalChunk = TRUE
   ZeroLenSlice = FALSE
-  GenPrint = FALSE
   Verbose = FALSE
 INVARIANT Accepted
 INVARIANT Progress
